@@ -59,7 +59,7 @@ CHECK = {
         "outside any case, executes every outer entry point x 7 kinds x 3 driver styles (lengths 3, 300) with every lower entry point x 6 kinds made before / after the driver's job in each of its first "
         "8 calls (own payload of 2 octets, tunnelled, and the tunnelling sources), and where such an execution is wrong repeats it with the lower calls switched off: if an execution is wrong only when "
         "a lower call is made, the library is not re-entrant, the reent-* cases are numbered but not run (trivial class reent-not-run, cap, exhaustive=False, exit 0) - never a violation; the reent-* "
-        "classes are not required; seeded changes C13k and C13n (static scratch) are no longer reported. Where the library is re-entrant by the probe, both the outer call and the call made from "
+        "classes are not required; seeded changes C13k and C13n (static scratch) are no longer reported. The same rule is applied per case (audit 6: the probe's lower calls have an own payload of 2 octets, a non-reentrancy that depends on the size of the lower call passes it): a reent-* execution runs with its failures noted, not reported; if it failed and nested calls were made it is repeated with the nested calls switched off, and if it then passes the case ends as reent-not-reentrant (trivial, cap) instead of a violation; otherwise the noted failure is reported. Where the library is re-entrant by the probe, both the outer call and the call made from "
         "inside the driver are held to the oracle of their entry point; the lower endpoints are objects of the driver, never the outer call's own arguments",
         "aliasing between the arguments of one call, decided as follows. Admitted (the designated octets are fixed by the arguments when the call is made and nobody writes them during the call): "
         "a sink that appends behind the fill mark of the memory the payload is taken from (memory_to_sink, buffer_to_sink, buffer_to_sink_n: the frame is the memory behind the old fill mark, "
@@ -83,9 +83,10 @@ CHECK = {
         "mapping came into existence; inside a case the same observation ends the case as dechuge-not-judged with a cap; a read that "
         "names the mapping but not destination+moved is a violation only if no page of the mapping exists afterwards (the decoder "
         "never moved octets itself); addresses outside the mapping are never logged; a sink/source of these cases stops serving after 256 calls, and a run in which everything moved until then was the designated payload in order is not judged (an implementation that moves little per call)",
+        "fake-extent families (enc-max, its first-sink-answer form, enc-sum; audit 6): accepting SINK-encoder calls are handed a buffer that claims >= 2^31 octets over 16 real ones and the payload is recognised by the pointer the sink is handed; both rest on the encoder passing the caller's memory straight to its sink, which the statement does not say (an encoder that reads its own input - staging through a private buffer, emitting short pieces octet by octet - is legitimate). Gated like dec-huge: a probe on real memory (the four sink encoders x 4 kinds on a 300-octet payload, chunk list 300 + 2 octets) decides; if any sink call carrying octets behind the prefix names memory outside the caller's blocks, those cases are numbered but not run (class encmax-not-run, cap, exhaustive=False, exit 0); in a case that runs, octets behind a correct prefix that arrive from memory that is not the caller's end the case as encmax-not-judged (cap). Refusals (nothing is read before a refusal) and the prefix-object encoders (views, nothing is read) always run; encmax-partial-sink is not a required class any more",
         "varint kind: lengths <= SSIZE_MAX-10 have to be accepted, > SSIZE_MAX (or a total that does not fit ssize_t) refused, "
         "the values in between are left open",
-        "prefix-object encoders return a status: demanded >= 0 plus a prefix view (anywhere inside the object's prefix storage) "
+        "prefix-object encoders return a status: demanded >= 0 plus a prefix view (anywhere inside the object's prefix storage, whose extent is sizeof the object's prefix_ member as compiled - audit 6) "
         "holding the encoding and a payload view / chunk list designating exactly the octets (sequence of non-empty address ranges; "
         "the representation of the list is not compared)",
         "'refused before anything is emitted' for the entry points that emit into a prefix object: what they emit is what they put into the object (prefix octets, designation of the payload), and the object is kept "
@@ -95,7 +96,7 @@ CHECK = {
         "chunks_use: the payload list is the caller's (set before the call), only the prefix view is judged (as it was, or empty); histories on a sink are not a subject (a sink has no state the statement speaks of)",
         "decoders: prefix values beyond the kind's maximum (varint: > SSIZE_MAX) are outside the statement and not generated; "
         "destinations are always real exact-size blocks (no claimed capacities), so a write inside the destination is never an alarm",
-        "decode_source_to_sink: only a non-negative return is demanded on success (the sink content decides); "
+        "decode_source_to_sink: only a non-negative return is demanded on success (the sink content decides); when the sink has no room, any negative code is accepted and nothing beyond the sink's room may be delivered (whether a sink has room is the sink's answer and reaches the caller through the plumbing of endpoints/core.c, for which C17 admits any negative code - audit 6; -ENOMEM stays demanded of the memory and buffer decoders, whose destination the decoder itself measures); "
         "its accepting decodes at the 32-bit maxima (dec-huge-sink) rest on the decoder moving the payload through the block the source offers: a probe with a 64 MiB frame decides; "
         "if the source is asked to fill other memory the family is not run / the case not judged (cap, exhaustive=False, exit 0), never a violation",
         "ASan red zones around exact-size heap blocks observe writes past a destination",
@@ -109,10 +110,12 @@ CHECK = {
                                      "decmax-enomem", "stream-inorder", "stream2-inorder", "stream-octet",
                                      "refuse-n", "refuse-n-offset", "refuse-n-then-slice",
                                      "encbeh-zero-return", "encbeh-interruption", "encbeh-partial", "encbeh-mixed",
-                                     "encmax-partial-sink", "stream-getbuffer",
+                                     "stream-getbuffer",
                                      "encsum-accept", "encsum-refuse", "alias-enc", "alias-enc-slices", "alias-dec", "alias-dec-enomem",
                                      "objhist-refused-after-accept", "objhist-refused-first", "objhist-chunks-refusal", "objhist-no-refusal"]},
         # reent-enc / reent-enc-tunnel / reent-dec / reent-dec-tunnel / reent-dec-sink are not required: on a library that is not
+        # encmax-partial-sink is not required: a sink encoder that hands its sink octets from memory of its own makes the fake-extent
+        # families end as encmax-not-run / encmax-not-judged (cap)
         # re-entrant (start-up probe) the whole family ends as reent-not-run (with a cap: exhaustive=False), not a vacuity failure
         # dechuge-accept / dechuge-sink-accept are not required: a decoder that does not deliver in place makes the whole family end as
         # dechuge-not-run / dechuge-not-judged (with a cap: exhaustive=False), which is not a vacuity failure
